@@ -328,8 +328,9 @@ def r_forwarded(c):
     name = "distributed.partition.find_distributed_partition"
     # (private helpers inlined; `pid = part_of[a]; outs[pid][n] = a` and
     # `outs[part_of[a]][n] = a` are the same loop)
-    nf = m.inlined(f)
-    loops = find(nf, """
+    loops = []
+    for nf in (f, m.inlined(f)):     # as written first (the namer stays a call)
+        loops = find(nf, """
 for $a in $sent:
     $n = $$namer
     $s2n[$a] = $n
@@ -341,6 +342,8 @@ for $a in $sent:
     $s2n[$a] = $n
     $outs[$pid][$n] = $a
 """)
+        if loops:
+            break
     # of the loops of that shape, the one over the arrays that sends send
     loops = [l for l in loops if has(
         f, f"{l['$sent']} = FrozenOrderedSet(($n.data for $n in "
